@@ -65,6 +65,8 @@ U_CTX = ["ptw:exp", "mat", "sum", "dl:u", "gauss_d", "ham", "esmul", "einsum", "
 B_CTX = ["add", "mul", "vdot", "pair", "madd", "mmul", "eadd"]
 U_TINY = ["ptw:exp", "einsum", "gauss_d", "ham"]
 B_TINY = ["mul", "pair", "madd", "eadd"]
+U_MT = ["ptw:exp", "mat", "dl:u", "mscale", "get:u", "get:v", "einsum", "gaussM", "ham"]
+B_MT = ["pair", "pairsub", "madd", "msub"]
 MIXED_MARKERS = ('"VCab"', '"pinsVC"', '"vcge"')
 _space_cache = {}
 
@@ -112,6 +114,8 @@ def space(tier):
             ["pre:exp"], grid=(0,))
         add("context alphabet, <=2 nodes, leaves a,b,c", ["a", "b", "c"], U_CTX, B_CTX, 2, ["pre:exp"], grid=(0,))
         add("tiny alphabet, <=3 nodes, leaves a,b,c", ["a", "b", "c"], U_TINY, B_TINY, 3, grid=(0,))
+        add("multi-domain-target sums and differences (linear and nonlinear), <=3 nodes", ["a", "b", "c"], U_MT, B_MT,
+            3, grid=(0,))
         add("MultiLinearEinsum, 3 operands, all key orders (vectors), <=1 node", X4.ME3_VEC,
             ["ptw:exp", "sum", "gauss_d", "ham"], [], 1, grid=(0,))
     else:
@@ -123,6 +127,8 @@ def space(tier):
             ["pre:exp"], grid=(0,))
         add("context alphabet, <=3 nodes, leaves a,b,c", ["a", "b", "c"], U_CTX, B_CTX, 3, ["pre:exp"], grid=(0,))
         add("tiny alphabet, <=4 nodes, leaves a,b,c", ["a", "b", "c"], U_TINY, B_TINY, 4, grid=(0,))
+        add("multi-domain-target sums and differences (linear and nonlinear), <=4 nodes", ["a", "b", "c"], U_MT, B_MT,
+            4, grid=(0,))
         add("MultiLinearEinsum, 3 operands, all key orders (vectors), <=2 nodes", X4.ME3_VEC,
             ["ptw:exp", "sum", "gauss_d", "ham"], [], 2, grid=(0,))
     _space_cache[tier] = blocks
@@ -462,6 +468,10 @@ def run(case):
     stats["mech|" + info.get("mech", "?")] = 1
     if info.get("c_out"):
         stats["c_out_not_none"] = 1
+    if not stats.get("jac_columns"):
+        # simplify / Jacobian application was a loud dtype rejection (Imaginizer, jax.jvp): nothing compared
+        return ok(nontrivial=False, outcome="%s|value only: specialised Jacobian rejects the tangent dtype" % dts,
+                  stats=stats, detail=dict(tree=X.tree_str(t), const=case["const"]))
     return ok(nontrivial=True,
               outcome="%s|%s|%s|%d of %d keys const|%s" % (dts, info["type"], info.get("mech"), len(case["const"]),
                                                             len(X.tree_keys(t)),
